@@ -3,7 +3,7 @@ import datetime
 import math
 from . import error
 from ..helper.number import to_number, whole_text
-from .utils import OPERATOR_DICT, serialize_date, parse_date, date_1900, as_lists, plain_number
+from .utils import OPERATOR_DICT, serialize_date, parse_date, date_1900, as_lists, plain_number, MAX_WHOLE_BITS
 from .._compat import integer_types, number_types, string_types
 
 
@@ -436,6 +436,8 @@ def evaluate_arithmetic(op, lval, rval):
                 isinstance(lval, float) and math.isinf(lval) or isinstance(rval, float) and math.isinf(rval)):
             # float arithmetic overflows silently: beyond the largest number is #NUM!, not infinity
             return error.NUM
+        if isinstance(result, integer_types) and result.bit_length() > MAX_WHOLE_BITS:
+            return error.NUM  # see utils.MAX_WHOLE_BITS
         if 'result' in conversions[ltype][rtype]:
             result = conversions[ltype][rtype]['result'](result)
         return result
